@@ -7,17 +7,22 @@ from .common import abstract_construct, lower_first, sym, is_sym
 from .driverworld import IE, IV, _reachable_objs, build_drivers, make_driver, make_vector
 
 EXPLANATION = (
-    "C07.BRANCH: Driver.message_from_client is abstractly interpreted on an abstract driver with three vectors for getProperties with "
-    "name in {absent, empty, existing, unknown}: the definitions sent must be exactly those of all vectors (absent/empty name) or of the "
-    "named vector, each once, in table order, and nothing for an unknown name. C07.DISABLED: every to_def_message/to_set_message "
-    "implementation is interpreted for (vector enabled, group enabled) in {T,F}^2 and element enabled flags: a disabled property answers "
-    "with delProperty / no update, an enabled one with a definition listing exactly its enabled elements in order; Driver.send_message "
-    "drops None. C07.EMIT: every constructor call of a message or part class made by the driver's emitters is checked, per concrete "
-    "class binding, against the effective constructor signature: all required parameters supplied; every keyword reaches a named "
-    "parameter (not **junk); no *required* XML attribute can receive None (to_xml omits None, the re-parse would fail) - nullability "
-    "comes from the definition classes' defaults, computed by abstract construction; the value= argument is a wire scalar, not a "
-    "values.BLOB object. C07.SIBLING: the keyword sets of the three definition emitters and the two update emitters agree up to the "
-    "parameters their message class lacks."
+    'C07.META: on a driver constructed from an analysis-only definition with three properties whose every metadata field is pairwise distinct, '
+    'and whose state and element values were moved away from the declared defaults through the public setters, every '
+    "to_def_message/to_set_message (five kinds) is evaluated: each message field and each part carries the property's / element's own current "
+    'value (device, name, label, group, state, perm, timeout, rule; element name, label, format/min/max/step, the value - numbers rendered as '
+    'num_to_str(own value, own format)). C07.BRANCH: Driver.message_from_client is abstractly interpreted on two drivers constructed in one '
+    'interpreter state (class-level objects are shared in the model as in Python) for getProperties with name in {absent, empty, existing, '
+    'unknown, prefix, other case, only on the other driver}: the definitions sent must be exactly those of all properties of the addressed driver '
+    '(absent/empty name) or of the named one, each once, in table order, and nothing for an unknown name; Driver.send_message drops None and '
+    'routes anything else once with the driver as sender. C07.DISABLED: every to_def_message/to_set_message implementation is evaluated on a '
+    'property constructed for each (vector enabled, group enabled) in {T,F}^2 with one disabled element: a disabled property answers with '
+    'delProperty(device, name) / no update, an enabled one with its message listing exactly its enabled elements in order. C07.EMIT: every '
+    "constructor call of a message or part class made by the driver's emitters is checked, per concrete class binding, against the effective "
+    'constructor signature: all required parameters supplied; every keyword reaches a named parameter (not **junk); no *required* XML attribute '
+    "can receive None (to_xml omits None, the re-parse would fail) - nullability comes from the definition classes' defaults, computed by "
+    'abstract construction; the value= argument is a wire scalar, not a values.BLOB object. C07.SIBLING: the keyword sets of the three definition '
+    'emitters and the two update emitters agree up to the parameters their message class lacks.'
 )
 NOT_DECIDED = "values in every reachable state (data); that is covered for numbers by C10 and for BLOBs by C08."
 ASSUMPTIONS = ["to_xml omits None attributes and writes str() of the others (decided by C03.WRITE)", "router addressing decides which devices see the request (C04)"]
